@@ -165,3 +165,182 @@ def case_text(case):
     for s, t in case['edges']:
         lines.append('%d %d' % (s, t))
     return '\n'.join(lines) + '\n'
+
+
+# ------------------------------------------------------------------------------------------------ whole-graph trees
+# doHOLA's whole-tree branch (hola.cpp:96-122): Tree::symmetricLayout(defaultTreeGrowthDir, nodeSep*IEL, rankSep*IEL, preferConvexTrees)
+# + routing with wholeTreeRouting, and NO later overlap removal.  The options it reads: defaultTreeGrowthDir, treeLayoutScalar_nodeSep,
+# treeLayoutScalar_rankSep, preferConvexTrees, wholeTreeRouting, routingAbs_nudgingDistance, nodePaddingScalar.  The family exercises it with
+# every growth direction in turn, pure-tree shapes and NON-SQUARE node dimension distributions (aspect ratio up to 12): whatever the layout
+# computes from a width where it needs a height (or the reverse) is invisible with near-square nodes.
+TREE_SHAPES = ['caterpillar', 'star', 'binary', 'path', 'broom', 'spider', 'recursive', 'double_star']
+SIZE_MODES = ['uniform_tall', 'uniform_wide', 'tall', 'wide', 'mixed', 'square', 'one_big']
+
+
+def gen_pure_tree(rng, shape, maxn):
+    es, seen = [], set()
+    if shape == 'caterpillar':
+        sp = rng.range(2, 5)
+        n = sp
+        for i in range(sp - 1):
+            _add(es, seen, i, i + 1)
+        for i in range(sp):
+            for _ in range(rng.range(0 if sp > 2 else 1, 4)):
+                if n < maxn:
+                    _add(es, seen, i, n)
+                    n += 1
+        return n, es
+    if shape == 'star':
+        n = rng.range(3, min(maxn, 13))
+        for i in range(1, n):
+            _add(es, seen, 0, i)
+        return n, es
+    if shape == 'binary':
+        n = rng.range(3, min(maxn, 31))
+        full = rng.chance(1, 2)
+        for v in range(1, n):
+            _add(es, seen, (v - 1) // 2 if full else rng.range(max(0, (v - 1) // 2 - 1), (v - 1) // 2), v)
+        return n, es
+    if shape == 'path':
+        n = rng.range(2, min(maxn, 9))
+        for i in range(n - 1):
+            _add(es, seen, i, i + 1)
+        return n, es
+    if shape == 'broom':
+        h = rng.range(1, 4)
+        n = h + 1 + rng.range(2, 6)
+        for i in range(h):
+            _add(es, seen, i, i + 1)
+        for i in range(h + 1, n):
+            _add(es, seen, h, i)
+        return n, es
+    if shape == 'spider':
+        legs, n = rng.range(3, 5), 1
+        for _ in range(legs):
+            prev = 0
+            for _k in range(rng.range(1, 3)):
+                _add(es, seen, prev, n)
+                prev = n
+                n += 1
+        return n, es
+    if shape == 'double_star':
+        a, b = rng.range(1, 5), rng.range(1, 5)
+        _add(es, seen, 0, 1)
+        n = 2
+        for _ in range(a):
+            _add(es, seen, 0, n); n += 1
+        for _ in range(b):
+            _add(es, seen, 1, n); n += 1
+        return n, es
+    n = rng.range(4, maxn)
+    for x, y in _tree_edges(rng, list(range(n)), None if rng.chance(1, 2) else 3):
+        _add(es, seen, x, y)
+    return n, es
+
+
+def gen_dims(rng, mode, n):
+    """node dimensions, aspect ratio up to 12; quarter units so that every value is a small dyadic"""
+    def tall():
+        w = rng.range(40, 120) / 4.0
+        return w, w * rng.range(8, 48) / 4.0            # aspect 2 .. 12
+    if mode in ('uniform_tall', 'uniform_wide'):
+        w = 5.0 * rng.range(2, 6)
+        h = w * rng.range(4, 12)
+        d = (w, h) if mode == 'uniform_tall' else (h, w)
+        return [d] * n
+    out = []
+    big = rng.below(n)
+    for v in range(n):
+        if mode == 'tall':
+            d = tall()
+        elif mode == 'wide':
+            d = tall()[::-1]
+        elif mode == 'mixed':
+            k = rng.below(3)
+            d = tall() if k == 0 else tall()[::-1] if k == 1 else (10.0 * rng.range(2, 6),) * 2
+        elif mode == 'one_big':
+            d = (30.0, 30.0) if v != big else (tall() if rng.chance(1, 2) else tall()[::-1])
+        else:
+            s = 10.0 * rng.range(2, 8)
+            d = (s, s)
+        out.append(d)
+    return out
+
+
+def gen_tree_opts(rng, k):
+    o = {'defaultTreeGrowthDir': k & 3}               # harness numbering: 0 EAST 1 SOUTH 2 WEST 3 NORTH; every direction in turn
+    if rng.chance(1, 2):
+        o['wholeTreeRouting'] = rng.below(3)          # STRICT / CORE_ATTACHMENT / MONOTONIC (default)
+    if rng.chance(1, 2):
+        o['preferConvexTrees'] = rng.below(2)
+    if rng.chance(1, 4):
+        o['treeLayoutScalar_nodeSep'] = rng.choice([0.125, 0.5, 1.0])
+    if rng.chance(1, 4):
+        o['treeLayoutScalar_rankSep'] = rng.choice([1.5, 2.0, 3.0])
+    if rng.chance(1, 4):
+        o['nodePaddingScalar'] = rng.choice([0.125, 0.5])
+    if rng.chance(1, 4):
+        o['routingAbs_nudgingDistance'] = rng.choice([1.0, 2.0, 8.0])
+    if rng.chance(1, 4):
+        o['putUlcAtOrigin'] = rng.below(2)
+    return o
+
+
+def gen_tree_case(rng, k, maxn):
+    """k-th case of the whole-tree family: growth direction k mod 4, shape and size mode vary with k so that every
+    (direction, size mode) pair and every (direction, shape) pair turns up within 56 cases"""
+    shape = TREE_SHAPES[(k // 4) % len(TREE_SHAPES)] if rng.chance(3, 4) else rng.choice(TREE_SHAPES)
+    mode = SIZE_MODES[(k // 4 + k // 32) % len(SIZE_MODES)] if rng.chance(3, 4) else rng.choice(SIZE_MODES)
+    n, es = gen_pure_tree(rng, shape, maxn)
+    ids = rng.shuffle(list(range(n))) if rng.chance(1, 2) else list(range(n))
+    dims = gen_dims(rng, mode, n)
+    span = 80 * max(2, int(n ** 0.5) + 1)
+    used, nodes = set(), []
+    for v in range(n):
+        while True:
+            x, y = rng.below(4 * span) / 4.0, rng.below(4 * span) / 4.0
+            if (x, y) not in used:
+                used.add((x, y))
+                break
+        nodes.append([ids[v], x, y, dims[v][0], dims[v][1]])
+    return {'family': 'whole_tree', 'shape': shape, 'size_mode': mode, 'nodes': nodes, 'edges': [[ids[a], ids[b]] for a, b in es],
+            'opts': gen_tree_opts(rng, k)}
+
+
+# ------------------------------------------------------------------------------------------------ graphs with a core, the remaining documented options
+# HolaOpts fields (libdialect/opts.h) that only matter when there is a core, and that gen_opts never sets: peeledTreeRouting,
+# orthoHubAvoidFlatTriangles, treePlacement_favourCardinal / External / Isolation, expansion_doCostlierDimensionFirst, expansion_estimateMethod,
+# align_reps, nearAlignScalar_kinkWidth / _scope, routingScalar_crossingPenalty / _segmentPenalty, routingAbs_nudgingDistance, nodePaddingScalar.
+def gen_core_opts(rng):
+    o = gen_opts(rng)
+    pick = lambda num, den: rng.chance(num, den)
+    if pick(1, 2):
+        o['peeledTreeRouting'] = rng.below(3)
+    if pick(1, 3):
+        o['orthoHubAvoidFlatTriangles'] = rng.below(2)
+    for k in ('treePlacement_favourCardinal', 'treePlacement_favourExternal', 'treePlacement_favourIsolation', 'expansion_doCostlierDimensionFirst',
+              'expansion_estimateMethod'):
+        if pick(1, 3):
+            o[k] = rng.below(2)
+    if pick(1, 4):
+        o['align_reps'] = rng.range(0, 3)
+    if pick(1, 4):
+        o['nearAlignScalar_kinkWidth'] = rng.choice([0.125, 0.5])
+    if pick(1, 4):
+        o['nearAlignScalar_scope'] = rng.choice([0.5, 2.0])
+    if pick(1, 4):
+        o['routingScalar_crossingPenalty'] = rng.choice([1.0, 4.0])
+    if pick(1, 4):
+        o['routingScalar_segmentPenalty'] = rng.choice([0.25, 1.0])
+    if pick(1, 4):
+        o['routingAbs_nudgingDistance'] = rng.choice([2.0, 8.0])
+    if pick(1, 4):
+        o['nodePaddingScalar'] = rng.choice([0.125, 0.5])
+    return o
+
+
+def gen_core_opts_case(rng, k, maxn):
+    c = gen_case(rng, ['core_trees', 'hubs', 'random'][k % 3], maxn)
+    c['family'] = 'core_opts'
+    c['opts'] = gen_core_opts(rng)
+    return c
